@@ -478,7 +478,38 @@ def unit_tie(ctx):
                           broken="correspondence of Model/Dist.v logp with the real flow density (C04_flow_1d_integrates_to_one_partial is about this model)")
 
 
+def batched_condition_sampler_unit(ctx):
+    """The sampler draws from the density ALSO when the condition is batched (the documented way to draw one sample per condition
+    row): with N copies of one condition in a single call the N draws are an i.i.d. sample of that conditional law -- in particular all
+    distinct, and their empirical CDF matches a sample drawn with sample_shape (N,) at the unbatched condition (two-sample KS).
+    (Seeded change C04e gave every condition row the same base noise.)"""
+    import jax.numpy as jnp
+    import jax.random as jr
+    from harness import flowcases as fc
+
+    u = ctx.unit("batched-condition-sampler", "conditional flows: sample(key, (), condition = N copies of c) vs sample(key', (N,), condition = c): all draws "
+                                              "distinct and two-sample KS below 0.075 (N = 4000 each: the 1e-9 quantile; first coordinate)")
+    N = 4000
+    for name, dim, cond, flow, _ in fc.flows(ctx, dims=(1, 2), conds=(2,)):
+        if name == "bnaf":
+            continue
+        c = jnp.asarray(ctx.rng.normal(0, 1, cond))
+        k1, k2 = jr.split(jr.PRNGKey(int(ctx.rng.integers(0, 2**31))))
+        a = np.asarray(flow.sample(k1, (), condition=jnp.tile(c, (N, 1))), dtype=float)[:, 0]
+        b = np.asarray(flow.sample(k2, (N,), condition=c), dtype=float)[:, 0]
+        u.count((name, dim), tag=name)
+        n_dist = len(np.unique(a))
+        allv = np.sort(np.concatenate([a, b]))
+        ks = float(np.max(np.abs(np.searchsorted(np.sort(a), allv, side="right") / N - np.searchsorted(np.sort(b), allv, side="right") / N)))
+        if n_dist < N or ks > 0.075:
+            ctx.violation(sig=f"batched-condition-sampler:{name}", what=f"{name} (dim {dim}): sample with {N} copies of one condition in one call gives {n_dist} distinct draws; "
+                          f"two-sample KS against sample_shape ({N},) at that condition = {ks:.3f} (threshold 0.075): the draws are not an i.i.d. sample of the conditional law",
+                          case=dict(unit="batched-condition-sampler", flow=name, dim=dim, condition=np.asarray(c).tolist()), found_input=True, unit=u.name,
+                          broken="sampler draws from the density (batched condition)")
+
+
 def run(ctx):
+    batched_condition_sampler_unit(ctx)
     uq = ctx.unit("quadrature-oracle", "deterministic composite Gauss-Legendre quadrature of exp(log_prob): 1-D (6696 nodes, tails to +-1e6, |I-1| <= 3e-3) "
                                        "for flows of every factory (quick: one configuration per factory, orientation / condition rotating with the seed) and "
                                        "hand-built Transformed; 2-D tensor grid (1728^2 points, |I-1| <= 2e-2); parameters perturbed N(0, 0.5^2) (2-D: 0.2^2)")
